@@ -11,6 +11,8 @@
 mod alloc;
 mod c01;
 mod c16;
+mod sim;
+mod simdemo;
 mod wirefmt;
 mod util;
 mod worker;
@@ -47,6 +49,12 @@ fn main() {
     let mode = args.get(1).map(String::as_str).unwrap_or("");
     match mode {
         "worker" => worker::worker_main(),
+        "simdemo" => {
+            if let Err(e) = simdemo::run() {
+                eprintln!("simdemo failed: {}", e);
+                std::process::exit(1);
+            }
+        }
         "gen" => {
             let prop = args.get(2).expect("property id").clone();
             let seed: u64 = arg(&args, "--seed").and_then(|s| s.parse().ok()).unwrap_or(1);
